@@ -54,10 +54,18 @@ def numCmp : Num → Num → Option Ordering
 
 def inRanges (rs : List (Nat × Nat)) (c : Char) : Bool := rs.any (fun r => r.1 ≤ c.toNat && c.toNat ≤ r.2)
 
+/-- U+001C..U+001F: `str.strip()` removes them, `int()` / `float()` do not (their ASCII path only skips C `isspace`).
+`Py.pyInt?` / `Py.pyFloatBits?` strip with `isPySpace` and so accept `"1\x1c"`, which CPython rejects (reported to the
+owner of the shared base); no valid number contains these characters, so rejecting them here is exact. -/
+def hasSepCtl (s : Str) : Bool := s.any (fun c => 0x1c ≤ c.toNat && c.toNat ≤ 0x1f)
+
+def cpyInt (s : Str) : Option Int := if hasSepCtl s then none else pyInt? s
+def cpyFloat (s : Str) : Option Nat := if hasSepCtl s then none else pyFloatBits? s
+
 /-- CPython's numbers and `re` classes -/
 def cpython (legacy : Bool) : Params where
-  pyInt := pyInt?
-  pyFloat := pyFloatBits?
+  pyInt := cpyInt
+  pyFloat := cpyFloat
   lt a b := numCmp a b == some .lt
   le a b := numCmp a b == some .lt || numCmp a b == some .eq
   eq a b := numCmp a b == some .eq
